@@ -1465,6 +1465,12 @@ func (r *Runtime) RunProgram(p *Program) (result Value, err error) {
 					r.leaveAbrupt()
 				}
 			} else {
+				if len(vm.callStack) == 0 {
+					// a foreign panic leaves the Runtime: pending jobs must not run in the next, unrelated call
+					vm.prg = nil
+					vm.sb = -1
+					r.jobQueue = nil
+				}
 				panic(x)
 			}
 		}
@@ -2532,6 +2538,10 @@ func (r *Runtime) runWrapped(f func()) (err error) {
 					r.leaveAbrupt()
 				}
 			} else {
+				if len(r.vm.callStack) == 0 {
+					// a foreign panic leaves the Runtime: pending jobs must not run in the next, unrelated call
+					r.jobQueue = nil
+				}
 				panic(x)
 			}
 		}
